@@ -124,7 +124,7 @@ def make_data(rng, n, cont, labels="auto"):
     cls = CLASSES_STR if strings else CLASSES_NUM
     if not strings and labels == "auto" and rng.random() < 0.25:
         # numeric class codes that are large and close together (year-month codes, ids): classes are equal or different, never "close"
-        cls = [[202301.0, 202302.0, 202303.0], [1.0e9, 1.0e9 + 1, 1.0e9 + 2], [-3.0, 0.0, 1e-9]][int(rng.integers(0, 3))]
+        cls = [[202301.0, 202302.0, 202303.0], [1.0e9, 1.0e9 + 1, 1.0e9 + 2], [-3.0, 0.0, 1e-9], [-1.0, 0.0, 1.0], [-1.0, -2.0, 5.0]][int(rng.integers(0, 5))]
     lab = [cls[int(i)] for i in rng.integers(0, 3, size=n)]
     if cont == "ndarray":
         return np.column_stack([f, np.array(lab, dtype=float)]), cls, 2, (0, 1)
@@ -413,6 +413,9 @@ def check_one(name, cont, data, cls, tcol, fcols, lo, hi, rng, ctx, case, inj=No
         mn = min(sum(1 for x in A[:, ti] if eq(x, g)) for g in groups)
         per = int(rng.integers(1, mn + 1))
         ss = per * len(groups) + int(rng.integers(0, len(groups)))
+        if rng.random() < 0.2:
+            ss = int(rng.integers(0, len(groups)))  # a budget below one row per group (0 included): nothing can be sampled from any group
+            ctx.count("cover_budget_below_one_row_per_group")
         rs = int(rng.integers(0, 1000))
         base.update(sample_size=ss, random_state=rs)
         out = call(inj, name, ctx, base, data, tcol, ss, random_state=rs)
